@@ -50,6 +50,10 @@ impl<'a> Text for &'a String { open spec fn text(&self) -> Seq<char> { (**self)@
 // A-fmt-02: format!("{}.{}", a, b) is a, a dot, b
 #[verifier::external_body]
 pub fn verif_format_dot<A: Text, B: Text>(a: &A, b: &B) -> (r: String) ensures r@ == a.text() + seq!['.'] + b.text() { unimplemented!() }
+// A-std-string-03: String::with_capacity is empty (push_str / push are specified by vstd)
+pub assume_specification[ String::with_capacity ](n: usize) -> (r: String) ensures r@ == Seq::<char>::empty();
+// A-std-string-04: String::len is the byte length of the text: at least its number of characters, at most isize::MAX (allocation limit)
+pub assume_specification[ String::len ](s: &String) -> (r: usize) ensures r >= s@.len(), r <= isize::MAX as usize;
 // A-std-string-01: String::to_string / clone copy the text; str::is_empty
 #[verifier::external_body]
 pub fn verif_to_string(s: &String) -> (r: String) ensures r@ == s@ { unimplemented!() }
